@@ -15,7 +15,10 @@ exact rational orientation predicates on every case.
 """
 from __future__ import annotations
 
+import base64
 import itertools
+import math
+import zlib
 from fractions import Fraction as F
 
 import numpy as np
@@ -101,6 +104,214 @@ def blocks(subs):
 
 
 # ------------------------------------------------------------------------------------------------
+# round 4: size-directed cases (kind "large") -- recipe expansion, array transport, vectorised helpers
+# ------------------------------------------------------------------------------------------------
+def _enc(a):
+    """numpy array -> compact JSON-able exact transport (large observations never travel as "p/q" lists)."""
+    a = np.ascontiguousarray(np.asarray(a))
+    return {"z": base64.b64encode(zlib.compress(a.tobytes(), 1)).decode("ascii"), "dtype": a.dtype.str,
+            "shape": list(a.shape)}
+
+
+def _dec(e):
+    return np.frombuffer(zlib.decompress(base64.b64decode(e["z"])), dtype=np.dtype(e["dtype"])).reshape(e["shape"])
+
+
+def _factor_shape(t, lo=3):
+    """a non-square (h, w), h <= w, both >= lo, with h*w == t and h as large as possible; None if t has none."""
+    for d in range(math.isqrt(t), lo - 1, -1):
+        if t % d == 0 and t // d >= lo:
+            if d == t // d and d > lo:  # square: prefer the next divisor pair if one exists
+                for d2 in range(d - 1, lo - 1, -1):
+                    if t % d2 == 0:
+                        return d2, t // d2
+            return d, t // d
+    return None
+
+
+def _subs_for_total(rs, total, mode):
+    """per-pixel sub-sizes in 1..4 with sum of squares == total exactly (odd sizes well represented)."""
+    pool = {"mixed": [1, 2, 3, 3, 4], "three": [3, 3, 3, 3, 3, 2, 4, 1], "odd": [1, 3, 3]}[mode]
+    out, rem = [], total
+    draw = rs.choice(pool, size=max(8, total // 2 + 8))
+    k = 0
+    while rem >= 16:
+        s = int(draw[k]); k += 1
+        out.append(s)
+        rem -= s * s
+    tail = []
+    for s in (3, 2, 1):
+        while rem >= s * s:
+            tail.append(s)
+            rem -= s * s
+    out = np.array(out + tail, dtype=np.int64)
+    # the fix-up pixels go to random places, one of them first (so blocks are misaligned from the start)
+    if len(out) > 1:
+        rs.shuffle(out)
+    return out
+
+
+def _subs_for_count(rs, n, mode):
+    if mode == "ones_sprinkle":
+        s = np.ones(n, dtype=np.int64)
+        k = max(1, n // 6)
+        s[rs.integers(0, n, size=k)] = rs.integers(2, 5, size=k)
+        return s
+    if mode.startswith("uniform"):
+        return np.full(n, int(mode[-1]), dtype=np.int64)
+    pool = {"mixed": [1, 2, 3, 3, 4], "three": [3, 3, 3, 3, 3, 2, 4, 1], "odd": [1, 3, 3]}[mode]
+    return rs.choice(pool, size=n).astype(np.int64)
+
+
+def _large_mask(rs, H, W, n):
+    """H x W mask (True = masked) with exactly n unmasked pixels: an off-centre elliptical blob with a hole,
+    ragged rim; touches the frame edge when n is a large fraction of the frame."""
+    if n >= H * W:
+        return np.zeros((H, W), dtype=bool)
+    yy, xx = np.mgrid[0:H, 0:W]
+    cy, cx = (H - 1) * (0.35 + 0.3 * rs.random()), (W - 1) * (0.35 + 0.3 * rs.random())
+    score = ((yy - cy) / max(H, 1)) ** 2 + ((xx - cx) / max(W, 1)) ** 2 + 0.02 * rs.random((H, W))
+    if n + 4 <= H * W and H >= 4 and W >= 4:
+        score[(np.abs(yy - round(cy)) <= 0) & (np.abs(xx - round(cx)) <= 1)] = 9.0  # hole at the centre
+    order = np.argsort(score, axis=None, kind="stable")
+    m = np.ones(H * W, dtype=bool)
+    m[order[:n]] = False
+    return m.reshape(H, W)
+
+
+def _frame_for(rs, n, slack=1.35):
+    """a non-square frame with at least n pixels (about slack*n)."""
+    tot = max(n, int(n * slack) + 1)
+    asp = [0.45, 0.7, 1.6, 2.3][int(rs.integers(0, 4))]
+    H = max(1, int(round(math.sqrt(tot * asp))))
+    W = -(-tot // H)
+    if H == W:
+        W += 1
+    return H, W
+
+
+def _expand_large(case):
+    """recipe -> concrete inputs (deterministic): mask, sub-sizes, source-plane grid, mesh (shape or vertices)."""
+    rs = np.random.default_rng([int(case["seed"]), 0xC06])
+    out = {}
+    if case["mesher"] == "tables":
+        n, P, kmax = case["n_unmasked"], case["pixels"], case["kmax"]
+        subs = _subs_for_total(rs, case["n_sub"], case["sub_mode"])
+        nsub = int((subs ** 2).sum())
+        sizes = rs.integers(0 if case.get("allow_zero") else 1, kmax + 1, size=nsub)
+        idx = rs.integers(0, P, size=(nsub, kmax))
+        idx[np.arange(kmax)[None, :] >= sizes[:, None]] = -1
+        wts = rs.integers(-32 if case.get("signed") else 0, 33, size=(nsub, kmax)) / 8.0
+        wts[np.arange(kmax)[None, :] >= sizes[:, None]] = 0.0
+        return {"subs": subs, "idx": idx.astype(np.int64), "sizes": sizes.astype(np.int64), "wts": wts, "pixels": P}
+    H, W = case["frame"]
+    if case.get("n_sub"):
+        subs = _subs_for_total(rs, case["n_sub"], case["sub_mode"])
+        n = len(subs)
+    else:
+        n = case["n_unmasked"]
+        subs = _subs_for_count(rs, n, case["sub_mode"])
+    m = _large_mask(rs, H, W, n)
+    sy, sx = case["scales"]
+    oy, ox = case["origin"]
+    ys, xs = np.nonzero(~m)
+    rep = subs * subs
+    nsub = int(rep.sum())
+    pix = np.repeat(np.arange(n), rep)
+    start = np.concatenate([[0], np.cumsum(rep)[:-1]])
+    j = np.arange(nsub) - np.repeat(start, rep)
+    sj = subs[pix]
+    y1, x1 = j // sj, j % sj
+    py = oy + ((H - 1) / 2 - ys[pix]) * sy + sy / 2 - (2 * y1 + 1) / 2 * sy / sj
+    px = ox + (xs[pix] - (W - 1) / 2) * sx - sx / 2 + (2 * x1 + 1) / 2 * sx / sj
+    # normalise to O(1), then affine + quadratic distortion + jitter, off-origin
+    u = (py - oy) / (max(H, 2) * sy / 2)
+    v = (px - ox) / (max(W, 2) * sx / 2)
+    a = [1.3, -0.35, 0.25, 0.8] if case["seed"] % 2 else [-0.6, 1.1, 0.9, 0.45]
+    c = rs.integers(-4, 5, size=6) / 32.0
+    jit = 2.0 ** -11 if case.get("style") != "clump" else 0.0
+    gy = a[0] * u + a[1] * v + c[0] * u * u + c[1] * u * v + c[2] * v * v + jit * rs.standard_normal(nsub) + 1.75
+    gx = a[2] * u + a[3] * v + c[3] * u * u + c[4] * u * v + c[5] * v * v + jit * rs.standard_normal(nsub) - 0.625
+    if case.get("style") == "clump" and nsub > 4:
+        # almost every point in one place (one cell / one triangle gets ~nsub entries), four far corners
+        gy[:] = 1.75 + 0.03125
+        gx[:] = -0.625 - 0.0625
+        k = rs.choice(nsub, size=4, replace=False)
+        gy[k] = 1.75 + np.array([-2.0, -2.0, 2.0, 2.0])
+        gx[k] = -0.625 + np.array([-1.5, 1.5, -1.5, 1.5])
+    corners = case.get("style") == "corners" and nsub >= 12
+    if corners:
+        # the four corners of the bounding box are data points: the first / last row and column of a rectangular
+        # mesh (cell indices 0, W-1, P-W, P-1) are certainly hit
+        k = rs.choice(nsub, size=4, replace=False)
+        lo_, hi_ = [gy.min(), gx.min()], [gy.max(), gx.max()]
+        gy[k] = [lo_[0], lo_[0], hi_[0], hi_[0]]
+        gx[k] = [lo_[1], hi_[1], lo_[1], hi_[1]]
+    grid = np.stack([gy, gx], axis=1)
+    out.update({"mask": m, "subs": subs, "grid": grid})
+    if case["mesher"] == "rect":
+        out["shape"] = tuple(case["mesh"])
+    else:
+        P = int(case["mesh"])
+        lo, hi = grid.min(axis=0), grid.max(axis=0)
+        mid, half = (lo + hi) / 2, (hi - lo) / 2 * 0.86 + 1e-3  # hull inside the data: some sub-pixels outside
+        rows = max(2, int(round(math.sqrt(P * 0.6))))
+        cols = -(-P // rows)
+        ly, lx = np.divmod(np.arange(rows * cols), cols)
+        keep = np.sort(rs.permutation(rows * cols)[:P]) if rows * cols > P else np.arange(P)
+        ly, lx = ly[keep], lx[keep]
+        jy = (rs.random(P) - 0.5) * 0.62
+        jx = (rs.random(P) - 0.5) * 0.62
+        pts = np.stack([mid[0] - half[0] + (ly + 0.5 + jy) * (2 * half[0] / rows),
+                        mid[1] - half[1] + (lx + 0.5 + jx) * (2 * half[1] / cols)], axis=1)
+        if corners and P >= 3:
+            # data points exactly on the last, the first and a middle vertex, and on the last edge's midpoint
+            free = np.setdiff1d(np.arange(nsub), k)
+            kk = rs.choice(free, size=4, replace=False)
+            grid[kk[0]], grid[kk[1]], grid[kk[2]] = pts[P - 1], pts[0], pts[P // 2]
+            grid[kk[3]] = (pts[P - 1] + pts[P - 2]) / 2
+        out["points"] = pts
+    return out
+
+
+def _orient_np(a, b, c):
+    return (b[..., 0] - a[..., 0]) * (c[..., 1] - a[..., 1]) - (b[..., 1] - a[..., 1]) * (c[..., 0] - a[..., 0])
+
+
+def _hull_np(pts):
+    """indices of the convex hull, counter-clockwise (monotone chain on doubles)."""
+    idx = np.lexsort((pts[:, 1], pts[:, 0]))
+    P = pts.tolist()
+
+    def half(seq):
+        st = []
+        for i in seq:
+            while len(st) >= 2:
+                a, b, c = P[st[-2]], P[st[-1]], P[i]
+                if (b[0] - a[0]) * (c[1] - a[1]) - (b[1] - a[1]) * (c[0] - a[0]) <= 0:
+                    st.pop()
+                else:
+                    break
+            st.append(int(i))
+        return st
+
+    lower, upper = half(idx), half(idx[::-1])
+    return np.array(lower[:-1] + upper[:-1], dtype=np.int64)
+
+
+def _first(mask_bad):
+    return int(np.flatnonzero(mask_bad)[0])
+
+
+class _Retry(Exception):
+    """history generator: the pinned ingredients could not be combined (draw again)"""
+
+
+def mask_from_bits(mj):
+    return [[mj["bits"][y * mj["w"] + x] == "1" for x in range(mj["w"])] for y in range(mj["h"])]
+
+
+# ------------------------------------------------------------------------------------------------
 class C06(PropertyCheck):
     pid = "C06"
     title = "mapping matrices"
@@ -117,6 +328,8 @@ class C06(PropertyCheck):
         "thorough": "rectangular_neighbors_from / Mesh2DRectangular.neighbors for every mesh shape 3..16 x 3..16 "
                     "(everything else is structured random generation)",
     }
+    # loop ties (DESIGN §12): regenerated from the source on every run, tie theorems proved for all sizes
+    loop_tie_modules = ["LoopsMapper"]
     modelled_functions = [
         "autoarray/inversion/pixelization/mappers/mapper_util.py:mapping_matrix_from",
         "autoarray/inversion/pixelization/mappers/mapper_util.py:data_slim_to_pixelization_unique_from",
@@ -205,6 +418,10 @@ class C06(PropertyCheck):
             yield self._rect_case(rng, i)
         for i in range(n):
             yield self._delaunay_case(rng, i)
+        # 5. mid-size cases judged by the vectorised oracle alone (round 4; see design_notes/C06.md)
+        yield from self._mid_cases(rng, quick)
+        # 6. reuse histories on real objects (round 4)
+        yield from self._history_cases(tier, rng)
 
     # ---- ingredients
     def _mask_subs(self, rng, max_sub_total=48):
@@ -276,12 +493,16 @@ class C06(PropertyCheck):
                 "over": rng.choice(["sampler", "sampler", "sampling"]),
                 "run_time_dict": rng.choice(["none", "none", "empty"])}
 
-    def _rect_case(self, rng, i):
-        m, kind, subs = self._mask_subs(rng)
+    def _rect_case(self, rng, i, force=None):
+        force = force or {}   # history stream only: pinned ingredients (never changes the ordinary stream)
+        m, kind, subs = force["ms"] if "ms" in force else self._mask_subs(rng)
         n = sum(s * s for s in subs)
         h, w = rng.randint(3, 6), rng.randint(3, 6)
+        if "hw" in force:
+            h, w = force["hw"]
         style = rng.choice(["distort", "distort", "distort", "hug", "hug", "lattice", "line", "clump"])
-        want_int = rng.random() < 0.22 and style != "hug"
+        style = force.get("style", style)
+        want_int = rng.random() < 0.22 and style != "hug" and not force.get("no_int")
         if want_int:
             # integer points sit exactly on the middle boundary of an even mesh far too often: odd sides
             h, w = rng.choice([3, 5]), rng.choice([3, 5])
@@ -367,12 +588,14 @@ class C06(PropertyCheck):
             if general_position(pts):
                 return pts
 
-    def _delaunay_case(self, rng, i):
-        m, kind, subs = self._mask_subs(rng)
+    def _delaunay_case(self, rng, i, force=None):
+        force = force or {}   # history stream only: pinned ingredients (never changes the ordinary stream)
+        m, kind, subs = force["ms"] if "ms" in force else self._mask_subs(rng)
         n = sum(s * s for s in subs)
-        pts = self._points(rng)
+        pts = force["pts"] if "pts" in force else self._points(rng)
         style = rng.choice(["distort", "special", "special", "hullhug"])
-        want_int = rng.random() < 0.22
+        style = force.get("style", style)
+        want_int = rng.random() < 0.22 and not force.get("no_int")
         if want_int:
             # integer vertices and integer grid points (vertices, lattice points inside and outside the hull)
             style = "intgrid"
@@ -521,6 +744,10 @@ class C06(PropertyCheck):
     def run_impl(self, case):
         aa = load_autoarray()
         kind = case["kind"]
+        if kind == "large":
+            return self._run_large(aa, case)
+        if kind == "hist":
+            return self._run_hist(aa, case)
         if kind == "nbr":
             from autoarray.inversion.pixelization.mesh import mesh_util
 
@@ -620,9 +847,15 @@ class C06(PropertyCheck):
                     mask=mask, border_relocator=None, source_plane_data_grid=grid,
                     source_plane_mesh_grid=aa.Grid2DIrregular(values=pts_in), run_time_dict=rtd)
                 mapper = aa.Mapper(mapper_grids=mg, over_sampler=over, regularization=None, run_time_dict=rtd)
-        psw = mapper.pix_sub_weights
-        um = mapper.unique_mappings
-        nb = mapper.neighbors
+        return self._observe(kind, mapper, over, grid)
+
+    def _observe(self, kind, mapper, over, grid, order=("psw", "um", "nb", "mm")):
+        """the C06 observables of one mapper; `order` = the order in which the (cached) quantities are first read"""
+        got = {}
+        for what in order:
+            got[what] = {"psw": lambda: mapper.pix_sub_weights, "um": lambda: mapper.unique_mappings,
+                         "nb": lambda: mapper.neighbors, "mm": lambda: mapper.mapping_matrix}[what]()
+        psw, um, nb = got["psw"], got["um"], got["nb"]
         mesh = mapper.source_plane_mesh_grid
         obs = {
             "class": type(mapper).__name__,
@@ -631,7 +864,7 @@ class C06(PropertyCheck):
             "mappings": [[int(v) for v in r] for r in np.asarray(psw.mappings)],
             "sizes": [int(v) for v in np.asarray(psw.sizes)],
             "weights": qmat(np.asarray(psw.weights)),
-            "mapping_matrix": qmat(np.asarray(mapper.mapping_matrix)),
+            "mapping_matrix": qmat(np.asarray(got["mm"])),
             "unique": {"data_to_pix_unique": [[int(v) for v in r] for r in um.data_to_pix_unique],
                        "data_weights": qmat(um.data_weights), "pix_lengths": [int(v) for v in um.pix_lengths]},
             "neighbors": [[int(v) for v in r] for r in np.asarray(nb)],
@@ -657,6 +890,10 @@ class C06(PropertyCheck):
     # ============================================================== model
     def model_requests(self, case, obs):
         kind = case["kind"]
+        if kind == "large":
+            return []  # judged by the vectorised oracle alone
+        if kind == "hist":
+            return self._hist_requests(case, obs)
         if isinstance(obs, dict) and "err" in obs:
             # still ask the model, so an implementation exception on a legal input is a disagreement
             if kind in ("rect", "delaunay"):
@@ -693,6 +930,8 @@ class C06(PropertyCheck):
 
     def model_obs(self, case, responses):
         kind = case["kind"]
+        if kind == "hist":
+            return [r["ok"] if "ok" in r else {"err": r.get("err")} for r in responses]
         for r in responses:
             if "err" in r:
                 return {"err": r["err"]}
@@ -709,6 +948,8 @@ class C06(PropertyCheck):
 
     def compare(self, case, impl, model, cmp):
         kind = case["kind"]
+        if kind == "hist":
+            return self._hist_compare(case, impl, model, cmp)
         if "err" in impl or "err" in model:
             return cmp.diff(impl, model)
         if kind == "nbr":
@@ -748,6 +989,10 @@ class C06(PropertyCheck):
         if isinstance(obs, dict) and "err" in obs:
             return False, f"implementation raised {obs}"
         kind = case["kind"]
+        if kind == "large":
+            return self._oracle_large(case, obs)
+        if kind == "hist":
+            return self._hist_oracle(case, obs)
         if kind == "nbr":
             for key_n, key_s in (("neighbors", "neighbors_sizes"), ("mesh.neighbors", "mesh.neighbors.sizes")):
                 ok, why = self._check_rect_neighbors(case["h"], case["w"], obs[key_n], obs[key_s])
@@ -979,8 +1224,10 @@ class C06(PropertyCheck):
     # ============================================================== bookkeeping
     def nontrivial(self, case, obs):
         kind = case["kind"]
-        if kind in ("nbr", "bary", "nearest"):
+        if kind in ("nbr", "bary", "nearest", "large"):
             return True
+        if kind == "hist":
+            return len(obs.get("reads", [])) >= 1 and all("err" not in r for r in obs["reads"])
         if kind == "tables":
             for (a, b) in blocks(case["sub_size"]):
                 seen = [p for sub in range(a, b) for p in case["idx"][sub][: case["sizes"][sub]]]
@@ -994,6 +1241,12 @@ class C06(PropertyCheck):
 
     def shrink(self, case):
         kind = case["kind"]
+        if kind == "large":
+            yield from self._shrink_large(case)
+            return
+        if kind == "hist":
+            yield from self._shrink_hist(case)
+            return
         if kind not in ("rect", "delaunay"):
             return
         subs = case["sub_size"]
@@ -1020,9 +1273,1246 @@ class C06(PropertyCheck):
     def sample_view(self, case):
         return {k: v for k, v in case.items() if not k.startswith("_")}
 
+    # ============================================================== round 4: reuse histories (kind "hist")
+    # A history is a list of typed steps on real library objects.  `worlds` are ordinary rect / delaunay case
+    # dicts (plus "adapt", "reg"); every mapper is built for one world and every `read` of it is compared with
+    # the model / judged by the oracle for a FRESH mapper of that world.  Objects (mask, sub-size array,
+    # over-sampling config, over-sampler, grid, mesh config, vertex grid, mesh, adapt image, regularization,
+    # run-time dict) are carried from world to world by `share` (unchanged), `edit` (changed in place through the
+    # public __setitem__ / numpy on a caller-owned array) and `derive` (arithmetic / deepcopy).
+    HIST_OBJS = ["mask", "sub", "oversampling", "over", "grid", "meshcfg", "pts", "mesh", "adapt", "reg", "rtd"]
+    REGS = {
+        "constant": lambda aa: aa.reg.Constant(coefficient=1.5),
+        "constant_zeroth": lambda aa: aa.reg.ConstantZeroth(coefficient_neighbor=1.0, coefficient_zeroth=0.5),
+        "zeroth": lambda aa: aa.reg.Zeroth(coefficient=0.5),
+        "constant_split": lambda aa: aa.reg.ConstantSplit(coefficient=1.0),
+        "adaptive": lambda aa: aa.reg.AdaptiveBrightness(inner_coefficient=1.0, outer_coefficient=0.25, signal_scale=1.5),
+        "adaptive_split": lambda aa: aa.reg.AdaptiveBrightnessSplit(inner_coefficient=1.0, outer_coefficient=0.25,
+                                                                    signal_scale=1.5),
+        "brightness_zeroth": lambda aa: aa.reg.BrightnessZeroth(coefficient=1.0, signal_scale=1.0),
+        "gauss": lambda aa: aa.reg.GaussianKernel(coefficient=1.0, scale=1.0),
+        "exp": lambda aa: aa.reg.ExponentialKernel(coefficient=1.0, scale=1.0),
+    }
+    DECOYS = ["pixel_signals", "data_weight_total", "sub_slim_for_pix", "sub_slim_for_pix_arr", "pix_for_slim",
+              "pix_for_slim_nested", "mapped_to_source", "split_cross", "interpolated", "interpolated_ext", "extent",
+              "extent_plain", "edge_pixel_list", "mesh_split_cross", "mesh_voronoi", "mesh_voronoi_areas",
+              "mesh_areas_split", "mesh_geometry", "mesh_neighbors", "mesh_pixels", "mesh_interp_grid",
+              "image_plane_data_grid", "over_sampled_grid", "over_binned", "over_misc", "reg_weights",
+              "delaunay_obj", "own_reg_matrix"] + [f"reg:{r}" for r in
+                                                  ("constant", "constant_zeroth", "zeroth", "constant_split", "adaptive",
+                                                   "adaptive_split", "brightness_zeroth", "gauss", "exp")]
+    FAULTS = ["mapped_to_source_short", "pix_for_slim_oob", "interpolated_wrong_len", "pixel_signals_bad_adapt",
+              "binned_wrong_len", "bad_world"]
+
+    def _do_decoy(self, aa, name, mapper, W):
+        """a sibling API / unrelated derived quantity of the objects involved; its value is not observed"""
+        P = int(mapper.pixels)
+        n = len(W["sub_size"])
+        nsub = sum(s * s for s in W["sub_size"])
+        vals = np.arange(P) * 0.25 + 0.5
+        mesh = mapper.source_plane_mesh_grid
+        if name.startswith("reg:"):
+            mapper.regularization = self.REGS[name[4:]](aa)
+            return mapper.regularization_matrix
+        return {
+            "pixel_signals": lambda: mapper.pixel_signals_from(signal_scale=1.5),
+            "data_weight_total": lambda: mapper.data_weight_total_for_pix_from(),
+            "sub_slim_for_pix": lambda: mapper.sub_slim_indexes_for_pix_index,
+            "sub_slim_for_pix_arr": lambda: mapper.sub_slim_indexes_for_pix_index_arr,
+            "pix_for_slim": lambda: mapper.pix_indexes_for_slim_indexes(pix_indexes=[0, P - 1]),
+            "pix_for_slim_nested": lambda: mapper.pix_indexes_for_slim_indexes(pix_indexes=[[0], [P - 1, 1]]),
+            "mapped_to_source": lambda: mapper.mapped_to_source_from(
+                array=aa.Array2D(values=np.arange(n) * 0.5 + 1.0, mask=mapper.over_sampler.mask)),
+            "split_cross": lambda: mapper.pix_sub_weights_split_cross,
+            "interpolated": lambda: mapper.interpolated_array_from(values=vals, shape_native=(5, 4)),
+            "interpolated_ext": lambda: mapper.interpolated_array_from(values=vals, shape_native=(3, 3),
+                                                                     extent=(-1.0, 1.0, -1.0, 1.0)),
+            "extent": lambda: mapper.extent_from(values=vals, zoom_to_brightest=True, zoom_percent=0.5),
+            "extent_plain": lambda: mapper.extent_from(),
+            "edge_pixel_list": lambda: mapper.edge_pixel_list,
+            "mesh_split_cross": lambda: mesh.split_cross,
+            "mesh_voronoi": lambda: mesh.voronoi,
+            "mesh_voronoi_areas": lambda: mesh.voronoi_pixel_areas,
+            "mesh_areas_split": lambda: mesh.voronoi_pixel_areas_for_split,
+            "mesh_geometry": lambda: (mesh.geometry.extent, mesh.origin),
+            "mesh_neighbors": lambda: (mesh.neighbors, mesh.neighbors.sizes),
+            "mesh_pixels": lambda: (mesh.pixels, mapper.params, mapper.pixels),
+            "mesh_interp_grid": lambda: mesh.interpolation_grid_from(shape_native=(3, 3)),
+            "image_plane_data_grid": lambda: mapper.mapper_grids.image_plane_data_grid,
+            "over_sampled_grid": lambda: mapper.over_sampler.over_sampled_grid,
+            "over_binned": lambda: mapper.over_sampler.binned_array_2d_from(array=np.arange(nsub) * 1.0),
+            "over_misc": lambda: (mapper.over_sampler.sub_total, mapper.over_sampler.sub_length,
+                                  mapper.over_sampler.sub_pixel_areas,
+                                  mapper.over_sampler.sub_mask_native_for_sub_mask_slim),
+            "reg_weights": lambda: mapper.regularization.regularization_weights_from(linear_obj=mapper),
+            "delaunay_obj": lambda: (mapper.delaunay.vertex_neighbor_vertices, mapper.delaunay.convex_hull),
+            "own_reg_matrix": lambda: mapper.regularization_matrix,
+        }[name]()
+
+    def _do_fault(self, aa, name, mapper, W):
+        """a call that raises in the middle of an operation on objects that are used again afterwards"""
+        P = int(mapper.pixels)
+        n = len(W["sub_size"])
+        nsub = sum(s * s for s in W["sub_size"])
+        if name == "mapped_to_source_short":
+            from autoarray.inversion.pixelization.mappers import mapper_util
+            return mapper_util.mapped_to_source_via_mapping_matrix_from(
+                mapping_matrix=mapper.mapping_matrix, array_slim=np.arange(max(n - 1, 0)) * 1.0)
+        if name == "pix_for_slim_oob":
+            return mapper.pix_indexes_for_slim_indexes(pix_indexes=[0, P + 3])
+        if name == "interpolated_wrong_len":
+            return mapper.interpolated_array_from(values=np.arange(P + 2) * 1.0, shape_native=(4, 3))
+        if name == "pixel_signals_bad_adapt":
+            from autoarray.inversion.pixelization.mappers import mapper_util
+            return mapper_util.adaptive_pixel_signals_from(
+                pixels=P, signal_scale=1.0, pixel_weights=mapper.pix_weights_for_sub_slim_index,
+                pix_indexes_for_sub_slim_index=mapper.pix_indexes_for_sub_slim_index,
+                pix_size_for_sub_slim_index=mapper.pix_sizes_for_sub_slim_index,
+                slim_index_for_sub_slim_index=mapper.over_sampler.slim_for_sub_slim,
+                adapt_data=np.arange(max(n - 1, 0)) * 1.0 + 2.0)
+        if name == "binned_wrong_len":
+            return mapper.over_sampler.binned_array_2d_from(array=np.arange(max(nsub - 1, 0)) * 1.0)
+        raise KeyError(name)
+
+    def _hist_make(self, aa, W, name, o):
+        """one fresh library object of world W (o = the objects of that world made / carried so far)"""
+        kind = W["kind"]
+        direct = W.get("route") == "direct"
+        if name == "mask":
+            m = np.array([c == "1" for c in W["mask"]["bits"]], dtype=bool).reshape(W["mask"]["h"], W["mask"]["w"])
+            return aa.Mask2D(mask=m, pixel_scales=tuple(float(F(v)) for v in W["scales"]),
+                             origin=tuple(float(F(v)) for v in W["origin"]))
+        if name == "sub":
+            if W.get("uniform_int_sub"):
+                return int(W["sub_size"][0])
+            return aa.Array2D(values=np.array(W["sub_size"], dtype=int), mask=o["mask"])
+        if name == "oversampling":
+            return aa.OverSamplingUniform(sub_size=o["sub"]) if W.get("over") == "sampling" else None
+        if name == "over":
+            if W.get("over") == "sampling":
+                return o["oversampling"].over_sampler_from(mask=o["mask"])
+            return aa.OverSamplerUniform(mask=o["mask"], sub_size=o["sub"])
+        if name == "grid":
+            raw = self._np(W["grid"], "float")
+            if W.get("readonly"):
+                raw.flags.writeable = False
+            return raw if W.get("grid_container") == "ndarray" else aa.Grid2DIrregular(values=raw)
+        if name == "meshcfg":
+            if direct:
+                return None
+            if kind == "rect":
+                shp = (W["h"], W["w"]) if W.get("shape_container") != "list" else [W["h"], W["w"]]
+                return aa.mesh.Rectangular(shape=shp)
+            return aa.mesh.Delaunay()
+        if name == "pts":
+            if kind == "rect" or direct:
+                return None
+            raw = self._np(W["points"], "float")
+            if W.get("readonly"):
+                raw.flags.writeable = False
+            return aa.Grid2DIrregular(values=raw)
+        if name == "mesh":
+            if not direct:
+                return None
+            if kind == "rect":
+                return aa.Mesh2DRectangular.overlay_grid(shape_native=(W["h"], W["w"]), grid=o["grid"])
+            return aa.Mesh2DDelaunay(values=self._np(W["points"], "float"))
+        if name == "adapt":
+            if W.get("adapt") is None:
+                return None
+            vals = np.array([float(F(v)) for v in W["adapt"]])
+            if W.get("readonly"):
+                vals.flags.writeable = False
+            return aa.Array2D(values=vals, mask=o["mask"])
+        if name == "reg":
+            return self.REGS[W["reg"]](aa) if W.get("reg") else None
+        if name == "rtd":
+            return {} if W.get("run_time_dict") == "empty" else None
+        raise KeyError(name)
+
+    def _hist_build(self, aa, W, o):
+        for name in self.HIST_OBJS:
+            if name not in o:
+                o[name] = self._hist_make(aa, W, name, o)
+        if W.get("route") == "direct":
+            mg = aa.MapperGrids(mask=o["mask"], source_plane_data_grid=o["grid"], source_plane_mesh_grid=o["mesh"],
+                                adapt_data=o["adapt"], run_time_dict=o["rtd"])
+            cls = aa.MapperRectangular if W["kind"] == "rect" else aa.MapperDelaunay
+            return cls(mapper_grids=mg, over_sampler=o["over"], border_relocator=None, regularization=o["reg"],
+                       run_time_dict=o["rtd"])
+        kw = {} if W["kind"] == "rect" else {"source_plane_mesh_grid": o["pts"]}
+        mg = o["meshcfg"].mapper_grids_from(mask=o["mask"], border_relocator=None, source_plane_data_grid=o["grid"],
+                                            adapt_data=o["adapt"], run_time_dict=o["rtd"], **kw)
+        return aa.Mapper(mapper_grids=mg, over_sampler=o["over"], regularization=o["reg"], run_time_dict=o["rtd"])
+
+    def _hist_edit(self, aa, obj, target, Wd, via):
+        """change `target` IN PLACE to the values of world Wd (public __setitem__, or numpy on a caller-owned array)"""
+        if obj in ("grid", "pts", "mesh"):
+            new = self._np(Wd["grid"] if obj == "grid" else Wd["points"], "float")
+            cur = np.array(target, dtype=float)
+            for k in np.flatnonzero(np.any(cur != new, axis=1)):
+                target[int(k)] = new[k]
+        elif obj == "sub":
+            cur = np.array(target)
+            for k, v in enumerate(Wd["sub_size"]):
+                if int(cur[k]) != v:
+                    target[k] = v
+        elif obj == "mask":
+            new = np.array([c == "1" for c in Wd["mask"]["bits"]], dtype=bool).reshape(Wd["mask"]["h"], Wd["mask"]["w"])
+            cur = np.array(target, dtype=bool)
+            for y, x in np.argwhere(cur != new):
+                target[int(y), int(x)] = bool(new[y, x])
+        elif obj == "adapt":
+            new = [float(F(v)) for v in Wd["adapt"]]
+            cur = np.array(target, dtype=float)
+            for k, v in enumerate(new):
+                if cur[k] != v:
+                    target[k] = v
+        else:
+            raise KeyError(obj)
+
+    def _run_hist(self, aa, case):
+        import copy as _copy
+
+        worlds = case["worlds"]
+        objs = [dict() for _ in worlds]
+        mappers = {}
+        reads, notes = [], []
+        for st in case["steps"]:
+            op = st["op"]
+            if op == "build":
+                W = worlds[st["w"]]
+                mappers[st["m"]] = (self._hist_build(aa, W, objs[st["w"]]), st["w"])
+            elif op == "share":
+                for name in st["objs"]:
+                    if name in objs[st["src"]]:
+                        objs[st["dst"]][name] = objs[st["src"]][name]
+            elif op == "edit":
+                target = objs[st["src"]][st["obj"]]
+                self._hist_edit(aa, st["obj"], target, worlds[st["dst"]], st.get("via"))
+                objs[st["dst"]][st["obj"]] = target
+            elif op == "derive":
+                src = objs[st["src"]][st["obj"]]
+                if st["how"] == "deepcopy":
+                    new = _copy.deepcopy(src)
+                elif st["how"] == "copy":
+                    new = _copy.copy(src)
+                elif st["how"] == "add":
+                    new = src + np.array([float(F(v)) for v in st["arg"]])
+                elif st["how"] == "mul":
+                    new = src * float(F(st["arg"]))
+                elif st["how"] == "slice":
+                    new = src[:]
+                else:
+                    raise KeyError(st["how"])
+                objs[st["dst"]][st["obj"]] = new
+            elif op == "decoy":
+                mp, w = mappers[st["m"]]
+                try:
+                    self._do_decoy(aa, st["what"], mp, worlds[w])
+                except Exception as e:  # availability differs per mesh type; the value is not observed
+                    notes.append(f"{st['what']}: {type(e).__name__}")
+            elif op == "fault":
+                try:
+                    if st["what"] == "bad_world":
+                        o = objs[st["w"]]
+                        mp = self._hist_build(aa, worlds[st["w"]], o)
+                        for attr in st.get("order") or ("mapping_matrix", "unique_mappings", "pix_sub_weights"):
+                            try:  # every observable on its own: each one is interrupted part-way
+                                getattr(mp, attr)
+                                notes.append(f"bad_world.{attr}: no exception")
+                            except Exception as e:
+                                notes.append(f"bad_world.{attr}: {type(e).__name__}")
+                    else:
+                        mp, w = mappers[st["m"]]
+                        self._do_fault(aa, st["what"], mp, worlds[w])
+                        notes.append(f"{st['what']}: no exception")
+                except Exception as e:
+                    notes.append(f"{st['what']}: {type(e).__name__}")
+            elif op == "read":
+                mp, w = mappers[st["m"]]
+                W = worlds[w]
+                g = self._np(W["grid"], "float")
+                try:
+                    reads.append(self._observe(W["kind"], mp, objs[w]["over"], g,
+                                               order=tuple(st.get("order") or ("psw", "um", "nb", "mm"))))
+                except Exception as e:
+                    reads.append({"err": type(e).__name__, "msg": str(e)[:300]})
+            else:
+                raise KeyError(op)
+        return {"reads": reads, "notes": notes}
+
+    @staticmethod
+    def _hist_read_worlds(case):
+        """the world every `read` step refers to (in order)"""
+        where, out = {}, []
+        for st in case["steps"]:
+            if st["op"] == "build":
+                where[st["m"]] = st["w"]
+            elif st["op"] == "read":
+                out.append(case["worlds"][where[st["m"]]])
+        return out
+
+    def _hist_requests(self, case, obs):
+        reqs = []
+        for W, r in zip(self._hist_read_worlds(case), obs["reads"]):
+            if "err" in r:
+                return []
+            reqs.extend(self.model_requests(W, r))
+        return reqs
+
+    def _hist_compare(self, case, impl, model, cmp):
+        ws = self._hist_read_worlds(case)
+        if len(impl["reads"]) != len(ws):
+            return f"history produced {len(impl['reads'])} reads, expected {len(ws)}"
+        skipped = 0
+        for k, (W, r, mo) in enumerate(zip(ws, impl["reads"], model)):
+            try:
+                d = self.compare(W, r, mo, cmp)
+            except Skip:
+                skipped += 1
+                continue
+            if d:
+                return f"history read #{k} ({W['kind']} world): {d}"
+        if skipped == len(ws):
+            raise Skip("every read within 1e-11 of a cell boundary")
+        return None
+
+    def _hist_oracle(self, case, obs):
+        ws = self._hist_read_worlds(case)
+        if len(obs["reads"]) != len(ws):
+            return False, f"history produced {len(obs['reads'])} reads, expected {len(ws)}"
+        for k, (W, r) in enumerate(zip(ws, obs["reads"])):
+            ok, why = self.oracle(W, r)
+            if not ok:
+                done = [s["op"] + (":" + str(s.get("what") or s.get("obj") or s.get("m") or ",".join(s.get("objs", []))))
+                        for s in case["steps"]]
+                return False, (f"history read #{k} (a mapper of world {case['worlds'].index(W)} after "
+                               f"{' > '.join(done)}): {why}")
+        return True, ""
+
+    def _shrink_hist(self, case):
+        steps = case["steps"]
+        n_reads = sum(1 for s in steps if s["op"] == "read")
+        for i, st in enumerate(steps):
+            if st["op"] in ("decoy", "fault") or (st["op"] == "read" and n_reads > 1):
+                yield {**case, "steps": steps[:i] + steps[i + 1:]}
+
+    # ---- history generators
+    def _h_world(self, rng, mesher, force=None, inside=False):
+        force = dict(force or {}, no_int=True)
+        for _ in range(40):
+            W = self._rect_case(rng, 0, force) if mesher == "rect" else self._delaunay_case(rng, 0, force)
+            if "hw" in force and (W["h"], W["w"]) != tuple(force["hw"]):
+                if "ms" in force:
+                    raise _Retry()
+                continue
+            if inside and mesher == "delaunay":
+                pts = [(F(a), F(b)) for a, b in W["points"]]
+                hull = convex_hull(pts)
+                if not any(all(orient(pts[hull[i]], pts[hull[(i + 1) % len(hull)]], (F(p[0]), F(p[1]))) > 0
+                               for i in range(len(hull))) for p in W["grid"]):
+                    continue
+            break
+        else:
+            if "hw" in force:
+                raise _Retry()
+        W = {k: v for k, v in W.items() if k != "tag"}
+        W["dtype"] = "float"
+        W["adapt"] = qlist([gen.pos_dyadic(rng, 1, 6, 2) for _ in W["sub_size"]])
+        regs = [r for r in self.REGS if mesher == "delaunay" or "split" not in r]
+        W["reg"] = rng.choice(regs + [None])
+        return W
+
+    @staticmethod
+    def _order(rng):
+        o = ["psw", "um", "nb", "mm"]
+        rng.shuffle(o)
+        return o
+
+    def _carry(self, W, exclude=()):
+        """names of the objects that can be carried unchanged to a world that differs only in `exclude`d inputs"""
+        down = {"mask": {"mask", "sub", "oversampling", "over", "adapt"}, "sub": {"sub", "oversampling", "over"},
+                "grid": {"grid"} | ({"mesh"} if W["kind"] == "rect" else set()), "pts": {"pts", "mesh"},
+                "adapt": {"adapt"}}
+        drop = set()
+        for e in exclude:
+            drop |= down[e]
+        return [n for n in self.HIST_OBJS if n not in drop]
+
+    def _h_decoy(self, rng, mesher, decoy):
+        W = self._h_world(rng, mesher, inside=True)
+        steps = [{"op": "build", "m": "A", "w": 0}]
+        if rng.random() < 0.35:
+            steps.append({"op": "read", "m": "A", "order": self._order(rng)})
+        names = [decoy] + [rng.choice(self.DECOYS) for _ in range(rng.choice([0, 0, 1, 2]))]
+        if rng.random() < 0.3:  # two sibling regularization schemes on the same mapper, either order
+            names += [f"reg:{r}" for r in rng.sample(sorted(self.REGS), 2)]
+        rng.shuffle(names)
+        steps += [{"op": "decoy", "m": "A", "what": d} for d in names]
+        steps.append({"op": "read", "m": "A", "order": self._order(rng)})
+        return {"tag": f"hist_decoy_{mesher}", "kind": "hist", "worlds": [W], "steps": steps}
+
+    def _new_point(self, rng, W):
+        ys = [F(p[0]) for p in W["grid"]]
+        xs = [F(p[1]) for p in W["grid"]]
+        lo_y, hi_y, lo_x, hi_x = min(ys), max(ys), min(xs), max(xs)
+        if W["kind"] == "delaunay" or rng.random() < 0.3:  # also outside the present extent
+            lo_y, hi_y, lo_x, hi_x = lo_y - 1, hi_y + 1, lo_x - 1, hi_x + 1
+        return (rnd(lo_y + (hi_y - lo_y) * F(rng.randint(0, 1 << 12), 1 << 12) + F(rng.randint(-8, 8), 1 << 14)),
+                rnd(lo_x + (hi_x - lo_x) * F(rng.randint(0, 1 << 12), 1 << 12) + F(rng.randint(-8, 8), 1 << 14)))
+
+    def _h_edit(self, rng):
+        mesher = rng.choice(["rect", "delaunay"])
+        what = rng.choice(["grid", "grid", "grid_numpy", "sub", "mask", "adapt", "deepcopy"] +
+                          (["pts", "pts"] if mesher == "delaunay" else ["grid"]))
+        W0 = self._h_world(rng, mesher, force={"style": "distort"} if mesher == "rect" else None)
+        W0["grid_container"] = "ndarray" if what == "grid_numpy" else "irregular"
+        if what in ("sub", "mask"):
+            W0["uniform_int_sub"] = False
+        W1 = {**W0}
+        bl = blocks(W0["sub_size"])
+        pre = [{"op": "build", "m": "A", "w": 0}, {"op": "read", "m": "A", "order": self._order(rng)}]
+        post = [{"op": "build", "m": "B", "w": 1}, {"op": "read", "m": "B", "order": self._order(rng)}]
+        if what in ("grid", "grid_numpy", "deepcopy"):
+            g = list(W0["grid"])
+            for k in rng.sample(range(len(g)), min(len(g), rng.choice([1, 1, 2, 3]))):
+                g[k] = qlist(self._new_point(rng, W0))
+            W1["grid"] = g
+            ys, xs = {p[0] for p in g}, {p[1] for p in g}
+            if mesher == "rect" and (len(ys) < 2 or len(xs) < 2):
+                W1["grid"] = W0["grid"]  # (a degenerate extent would need different mesh sides)
+            if what == "deepcopy":
+                mid = [{"op": "derive", "obj": "grid", "src": 0, "dst": 1, "how": "deepcopy"},
+                       {"op": "edit", "obj": "grid", "src": 1, "dst": 1, "via": "setitem"},
+                       {"op": "share", "src": 0, "dst": 1, "objs": self._carry(W0, ["grid"])}]
+                post = post + [{"op": "read", "m": "A", "order": self._order(rng)}]
+            else:
+                mid = [{"op": "edit", "obj": "grid", "src": 0, "dst": 1,
+                        "via": "numpy" if what == "grid_numpy" else "setitem"},
+                       {"op": "share", "src": 0, "dst": 1, "objs": self._carry(W0, ["grid"])}]
+        elif what == "sub":
+            i = rng.randrange(len(W0["sub_size"]))
+            s_new = rng.choice([s for s in (1, 2, 3, 4) if s != W0["sub_size"][i]])
+            a, b = bl[i]
+            W1["sub_size"] = W0["sub_size"][:i] + [s_new] + W0["sub_size"][i + 1:]
+            W1["grid"] = W0["grid"][:a] + [qlist(self._new_point(rng, W0)) for _ in range(s_new * s_new)] + W0["grid"][b:]
+            if mesher == "rect":  # keep the extent pinned by the old points where possible
+                W1["grid"][a] = W0["grid"][a]
+            mid = [{"op": "edit", "obj": "sub", "src": 0, "dst": 1, "via": "setitem"},
+                   {"op": "share", "src": 0, "dst": 1, "objs": self._carry(W0, ["sub", "grid"]) + ["sub"]}]
+        elif what == "mask":
+            bits = W0["mask"]["bits"]
+            un = [k for k, c in enumerate(bits) if c == "0"]
+            ms = [k for k, c in enumerate(bits) if c == "1"]
+            if ms and (len(un) < 2 or rng.random() < 0.5):  # unmask one pixel
+                k = rng.choice(ms)
+                i = sum(1 for u in un if u < k)
+                s_new = rng.randint(1, 3)
+                a = bl[i][0] if i < len(bl) else len(W0["grid"])
+                W1["mask"] = {**W0["mask"], "bits": bits[:k] + "0" + bits[k + 1:]}
+                W1["sub_size"] = W0["sub_size"][:i] + [s_new] + W0["sub_size"][i:]
+                W1["grid"] = W0["grid"][:a] + [qlist(self._new_point(rng, W0)) for _ in range(s_new * s_new)] + W0["grid"][a:]
+                W1["adapt"] = W0["adapt"][:i] + [q(gen.pos_dyadic(rng, 1, 6, 2))] + W0["adapt"][i:]
+            elif len(un) >= 2:  # mask one pixel
+                i = rng.randrange(len(un))
+                a, b = bl[i]
+                W1["mask"] = {**W0["mask"], "bits": bits[:un[i]] + "1" + bits[un[i] + 1:]}
+                W1["sub_size"] = W0["sub_size"][:i] + W0["sub_size"][i + 1:]
+                W1["grid"] = W0["grid"][:a] + W0["grid"][b:]
+                W1["adapt"] = W0["adapt"][:i] + W0["adapt"][i + 1:]
+            ys, xs = {p[0] for p in W1["grid"]}, {p[1] for p in W1["grid"]}
+            if mesher == "rect" and (len(ys) < 2 or len(xs) < 2):
+                W1 = {**W0}
+            mid = [{"op": "edit", "obj": "mask", "src": 0, "dst": 1, "via": "setitem"},
+                   {"op": "share", "src": 0, "dst": 1, "objs": self._carry(W0, ["mask", "grid"]) + ["mask"]}]
+        elif what == "pts":
+            pts = [(F(a), F(b)) for a, b in W0["points"]]
+            for _ in range(30):
+                k = rng.randrange(len(pts))
+                cand = list(pts)
+                cand[k] = (pts[k][0] + gen.dyadic(rng, -1, 1, 6), pts[k][1] + gen.dyadic(rng, -1, 1, 6))
+                if general_position(cand):
+                    pts = cand
+                    break
+            W1["points"] = [qlist(p) for p in pts]
+            if W0.get("route") == "direct":
+                # a Mesh2DDelaunay nothing has been read from yet: edit before the first read
+                pre = [{"op": "build", "m": "A", "w": 0}]
+                mid = [{"op": "edit", "obj": "mesh", "src": 0, "dst": 1, "via": "setitem"},
+                       {"op": "share", "src": 0, "dst": 1, "objs": self._carry(W0, [])}]
+            else:
+                mid = [{"op": "edit", "obj": "pts", "src": 0, "dst": 1, "via": "setitem"},
+                       {"op": "share", "src": 0, "dst": 1, "objs": self._carry(W0, ["pts"]) + ["pts"]}]
+        else:  # adapt image edited in place between two reads of the SAME mapper
+            W1["adapt"] = qlist([gen.pos_dyadic(rng, 1, 6, 2) for _ in W0["sub_size"]])
+            mid = [{"op": "edit", "obj": "adapt", "src": 0, "dst": 1, "via": "setitem"},
+                   {"op": "decoy", "m": "A", "what": rng.choice(["pixel_signals", "reg:adaptive", "reg:brightness_zeroth"])}]
+            post = [{"op": "read", "m": "A", "order": self._order(rng)}]
+        return {"tag": f"hist_edit_{mesher}", "flavour": what, "kind": "hist", "worlds": [W0, W1], "steps": pre + mid + post}
+
+    def _hug_twin(self, rng, n, h, w):
+        """two grids for an h x w overlay.  Their extents differ by 2^-18..2^-17 RELATIVE to the extreme coordinates
+        (inside np.allclose's default tolerance, ~1e4 x the property's 1e-9), so the cell boundaries of the two
+        overlays differ by ~1e-6 cells; the other points sit 2^-23 cells from the first overlay's boundaries (on
+        opposite sides in the two grids): a mesh or a cell table kept from the twin puts them in the wrong cell."""
+        a, b = rng.choice([F(1), F(3, 2), F(2), F(3)]), rng.choice([F(1), F(3, 2), F(2), F(3)])
+        y0 = gen.dyadic(rng, 1, 4, 2) if rng.random() < 0.5 else -h * a - gen.dyadic(rng, 1, 4, 2)
+        x0 = gen.dyadic(rng, 1, 4, 2) if rng.random() < 0.5 else -w * b - gen.dyadic(rng, 1, 4, 2)
+        eps = F(1, 1 << 23)
+        ext = [y0, x0, y0 + h * a, x0 + w * b]  # all of magnitude >= 1
+        dl = [F(rng.choice([-2, -1, 0, 1, 2]), 1 << 18) * abs(v) for v in ext]
+        if not any(dl):
+            dl[rng.randrange(4)] = F(1, 1 << 18) * abs(ext[0])
+        if rng.random() < 0.1:
+            dl = [F(0)] * 4  # identical extents: only the interior points differ
+        g0 = [(ext[0], ext[1]), (ext[2], ext[3])]
+        g1 = [(rnd(ext[0] + dl[0], 40), rnd(ext[1] + dl[1], 40)), (rnd(ext[2] + dl[2], 40), rnd(ext[3] + dl[3], 40))]
+        while len(g0) < n:
+            ky, kx = rng.randint(1, h - 1), rng.randint(1, w - 1)
+            dy = rng.choice([-1, 1]) * eps * a * rng.choice([1, 2])
+            dx = rng.choice([-1, 1]) * eps * b * rng.choice([1, 2])
+            if rng.random() < 0.3:
+                dy = F(rng.randint(1, 15), 16) * a  # well inside a cell: not mirrored
+            g0.append((y0 + ky * a + dy, x0 + kx * b + dx))
+            g1.append((y0 + ky * a - dy if abs(dy) < a / 64 else y0 + ky * a + dy, x0 + kx * b - dx))
+        perm = list(range(len(g0)))
+        rng.shuffle(perm)
+        g0, g1 = [g0[i] for i in perm], [g1[i] for i in perm]
+        return g0[:n], g1[:n]
+
+    def _h_twin(self, rng):
+        mesher = rng.choice(["rect", "delaunay"])
+        flavour = rng.choice(["near", "near", "sameshape"] + (["tiny"] if mesher == "delaunay" else ["near"]))
+        if mesher == "rect":
+            for _ in range(50):
+                W0 = self._h_world(rng, "rect", force={"style": "distort"})
+                if len(W0["grid"]) >= 4:
+                    break
+            n = len(W0["grid"])
+            if flavour == "sameshape" or n < 4:
+                W1 = self._h_world(rng, "rect", force={"style": "distort", "hw": (W0["h"], W0["w"]),
+                                                       "ms": (mask_from_bits(W0["mask"]), W0["mask_kind"], W0["sub_size"])})
+                for k in ("uniform_int_sub", "over", "route", "shape_container", "run_time_dict", "reg", "scales", "origin"):
+                    W1[k] = W0[k]
+            else:
+                g0, g1 = self._hug_twin(rng, n, W0["h"], W0["w"])
+                W0["grid"] = [qlist(p) for p in g0]
+                W0["degenerate_extent"] = False
+                W1 = {**W0, "grid": [qlist(p) for p in g1]}
+            carry = self._carry(W0, ["grid"])
+        else:
+            W0 = self._h_world(rng, "delaunay", inside=True)
+            if flavour == "sameshape":
+                W1 = self._h_world(rng, "delaunay", force={
+                    "ms": (mask_from_bits(W0["mask"]), W0["mask_kind"], W0["sub_size"])}, inside=True)
+                for k in ("uniform_int_sub", "over", "route", "run_time_dict", "reg", "scales", "origin"):
+                    W1[k] = W0[k]
+            else:
+                sc = F(1, 1 << 30) if flavour == "tiny" else F(1)
+                pts = [(F(a) * sc, F(b) * sc) for a, b in W0["points"]]
+                grid = [(F(a) * sc, F(b) * sc) for a, b in W0["grid"]]
+                W0["points"], W0["grid"] = [qlist(p) for p in pts], [qlist(p) for p in grid]
+                d = F(1, 1 << 34) if flavour == "tiny" else F(1, 1 << 20)
+
+                def nudge(v):
+                    # "near": relative 2^-20..2^-18 (inside allclose's rtol=1e-5); coordinates close to zero move
+                    # by < 1e-8 (inside its atol).  "tiny": the whole world is ~1e-9 and moves by ~1e-10.
+                    if flavour == "tiny":
+                        return v + rng.choice([-1, 1]) * d * rng.choice([1, 2, 4])
+                    if abs(v) < F(1, 16):
+                        return v + rng.choice([-1, 0, 1]) * F(1, 1 << 28)
+                    return rnd(v + rng.choice([-1, 1]) * d * abs(v) * rng.choice([1, 2, 4]), 44)
+
+                for _ in range(30):
+                    p1 = [(nudge(y), nudge(x)) for (y, x) in pts]
+                    if general_position(p1):
+                        break
+                else:
+                    p1 = pts
+                g1 = [(nudge(y), nudge(x)) for (y, x) in grid] if rng.random() < 0.5 else grid
+                W1 = {**W0, "points": [qlist(p) for p in p1], "grid": [qlist(p) for p in g1]}
+            carry = self._carry(W0, ["grid", "pts"])
+        ws = [W0, W1] if rng.random() < 0.5 else [W1, W0]
+        steps = [{"op": "build", "m": "A", "w": 0}, {"op": "read", "m": "A", "order": self._order(rng)},
+                 {"op": "share", "src": 0, "dst": 1, "objs": carry},
+                 {"op": "build", "m": "B", "w": 1}, {"op": "read", "m": "B", "order": self._order(rng)}]
+        if rng.random() < 0.3:
+            steps.append({"op": "read", "m": "A", "order": self._order(rng)})
+        return {"tag": f"hist_twin_{mesher}", "flavour": flavour, "kind": "hist", "worlds": ws, "steps": steps}
+
+    def _h_fault(self, rng):
+        mesher = rng.choice(["rect", "delaunay"])
+        W0 = self._h_world(rng, mesher, force={"style": "distort"} if mesher == "rect" else None, inside=True)
+        if rng.random() < 0.3:
+            W0["readonly"] = True
+        what = rng.choice(self.FAULTS)
+        worlds = [W0, {**W0}]
+        steps = [{"op": "build", "m": "A", "w": 0}]
+        if rng.random() < 0.4:
+            steps.append({"op": "read", "m": "A", "order": self._order(rng)})
+        if what == "bad_world":
+            bad = {**W0, "grid": W0["grid"][:-1]}  # one source-plane position missing: fails part-way
+            worlds.append(bad)
+            steps += [{"op": "share", "src": 0, "dst": 2, "objs": self._carry(W0, ["grid"])},
+                      {"op": "fault", "what": "bad_world", "w": 2,
+                       "order": rng.sample(["mapping_matrix", "unique_mappings", "pix_sub_weights", "neighbors"], 4)}]
+        else:
+            steps.append({"op": "fault", "m": "A", "what": what})
+        steps += [{"op": "read", "m": "A", "order": self._order(rng)},
+                  {"op": "share", "src": 0, "dst": 1, "objs": self._carry(W0, rng.choice([["grid"], [], ["grid", "pts"]]))},
+                  {"op": "build", "m": "B", "w": 1}, {"op": "read", "m": "B", "order": self._order(rng)}]
+        return {"tag": f"hist_fault_{mesher}", "flavour": what, "kind": "hist", "worlds": worlds, "steps": steps}
+
+    def _h_shared(self, rng):
+        mesher = rng.choice(["rect", "delaunay"])
+        what = rng.choice(["config", "config", "oversampling", "mask_over"] + (["mesh"] if mesher == "delaunay" else ["config"]))
+        base = {"style": "distort", "hw": (rng.choice([3, 5]), rng.choice([3, 5]))} if mesher == "rect" else {}
+        f1 = dict(base)
+        if what == "oversampling":
+            s = rng.randint(1, 3)
+            ms = []
+            while len(ms) < 2:
+                m, kind, subs = self._mask_subs(rng)
+                if len(subs) * s * s <= 64:
+                    ms.append((m, kind, [s] * len(subs)))
+            W0 = self._h_world(rng, mesher, force=dict(base, ms=ms[0]))
+            W1 = self._h_world(rng, mesher, force=dict(base, ms=ms[1]))
+            for W_ in (W0, W1):
+                W_["uniform_int_sub"], W_["over"] = True, "sampling"
+            names = ["sub", "oversampling", "meshcfg", "reg", "rtd"]
+            W0["route"] = "mesh"
+            return self._h_shared_finish(rng, mesher, what, W0, W1, names)
+        W0 = self._h_world(rng, mesher, force=base)
+        if what != "mesh":
+            W0["route"] = "mesh"
+        if what == "mask_over":
+            W1 = self._h_world(rng, mesher, force=dict(f1, ms=(mask_from_bits(W0["mask"]), W0["mask_kind"], W0["sub_size"])))
+            for k in ("uniform_int_sub", "over", "scales", "origin"):
+                W1[k] = W0[k]
+            names = ["mask", "sub", "oversampling", "over", "meshcfg", "reg", "rtd"]
+        elif what == "mesh":
+            W0["route"] = "direct"
+            W1 = self._h_world(rng, mesher, force={"pts": [(F(a), F(b)) for a, b in W0["points"]]})
+            W1["route"] = "direct"
+            names = ["mesh", "reg", "rtd"]
+        else:
+            W1 = self._h_world(rng, mesher, force=f1)
+            names = ["meshcfg", "reg", "rtd"]
+        return self._h_shared_finish(rng, mesher, what, W0, W1, names)
+
+    def _h_shared_finish(self, rng, mesher, what, W0, W1, names):
+        for k in ("route", "shape_container", "run_time_dict", "reg"):
+            if k in W0:
+                W1[k] = W0[k]
+        if mesher == "rect":
+            assert (W0["h"], W0["w"]) == (W1["h"], W1["w"])
+        if W0.get("run_time_dict") != "empty" and rng.random() < 0.5:
+            W0["run_time_dict"] = W1["run_time_dict"] = "empty"
+        sh = {"op": "share", "src": 0, "dst": 1, "objs": names}
+        bA, rA = {"op": "build", "m": "A", "w": 0}, {"op": "read", "m": "A", "order": self._order(rng)}
+        bB, rB = {"op": "build", "m": "B", "w": 1}, {"op": "read", "m": "B", "order": self._order(rng)}
+        steps = rng.choice([[bA, sh, bB, rB, rA], [bA, rA, sh, bB, rB], [bA, sh, bB, rA, rB, dict(rA)]])
+        ws = [W0, W1] if rng.random() < 0.5 else [W1, W0]
+        return {"tag": f"hist_shared_{mesher}", "flavour": what, "kind": "hist", "worlds": ws, "steps": steps}
+
+    def _h_derive(self, rng):
+        mesher = rng.choice(["rect", "delaunay"])
+        W0 = self._h_world(rng, mesher, force={"style": "distort"} if mesher == "rect" else None, inside=True)
+        how = rng.choice(["add", "mul", "deepcopy", "copy", "slice"])
+        obj = "grid"
+        if mesher == "delaunay" and rng.random() < 0.5:
+            obj = "mesh"
+            W0["route"] = "direct"
+        else:
+            W0["grid_container"] = "irregular"
+        key = "grid" if obj == "grid" else "points"
+        vals = [(F(a), F(b)) for a, b in W0[key]]
+        st = {"op": "derive", "obj": obj, "src": 0, "dst": 1, "how": how}
+        if how == "add":
+            sh = (gen.dyadic(rng, -2, 2, 3), gen.dyadic(rng, -2, 2, 3))
+            st["arg"] = qlist(sh)
+            vals = [(y + sh[0], x + sh[1]) for y, x in vals]
+        elif how == "mul":
+            k = rng.choice([F(1, 2), F(2), F(-1), F(1, 4)])
+            st["arg"] = q(k)
+            vals = [(y * k, x * k) for y, x in vals]
+        W1 = {**W0, key: [qlist(p) for p in vals]}
+        steps = [{"op": "build", "m": "A", "w": 0}, {"op": "read", "m": "A", "order": self._order(rng)},
+                 {"op": "decoy", "m": "A", "what": rng.choice(self.DECOYS)}, st,
+                 {"op": "share", "src": 0, "dst": 1, "objs": self._carry(W0, ["grid"] if obj == "grid" else ["pts"])},
+                 {"op": "build", "m": "B", "w": 1}, {"op": "read", "m": "B", "order": self._order(rng)},
+                 {"op": "read", "m": "A", "order": self._order(rng)}]
+        return {"tag": f"hist_derive_{mesher}", "flavour": f"{how}_{obj}", "kind": "hist", "worlds": [W0, W1], "steps": steps}
+
+    N_HIST = {"quick": {"decoy": 1, "edit": 48, "twin": 48, "fault": 36, "shared": 40, "derive": 30},
+              "thorough": {"decoy": 6, "edit": 400, "twin": 400, "fault": 300, "shared": 320, "derive": 240}}
+
+    def _history_cases(self, tier, rng):
+        nh = self.N_HIST["quick" if tier == "quick" else "thorough"]
+        for _ in range(nh["decoy"]):
+            for mesher in ("rect", "delaunay"):
+                for d in self.DECOYS:
+                    yield self._h_decoy(rng, mesher, d)
+        for name, fn in (("edit", self._h_edit), ("twin", self._h_twin), ("fault", self._h_fault),
+                         ("shared", self._h_shared), ("derive", self._h_derive)):
+            for _ in range(nh[name]):
+                for _try in range(20):
+                    try:
+                        yield fn(rng)
+                        break
+                    except _Retry:
+                        continue
+
+    # ============================================================== round 4: size-directed cases (kind "large")
+    LARGE_MAX_HINT = 70000      # larger constants are not feasible in pure Python within the budget
+    LARGE_MAX_SUB = 170000      # cap on the total number of sub-pixels of one large case
+    LARGE_MAX_ENTRIES = 3_000_000  # cap on rows x columns of a dense mapping matrix
+
+    def generate_large(self, hints, rng):
+        """for every new integer constant c of the anchored source: mapper cases (rectangular and Delaunay, public
+        API) and raw-table cases whose total sub-pixels, unmasked pixels, frame pixels / rows / columns, mesh
+        pixels / mesh rows / mesh columns / Delaunay vertices and dense-matrix entries are c + c//3 + 1, c, c+1,
+        c-1 and 2c+1.  Round-robin over the hints so that one hint cannot use up the budget."""
+        gens = [self._large_for_hint(c, rng.randrange(1 << 20)) for c in sorted(set(hints))
+                if 8 <= c <= self.LARGE_MAX_HINT]
+        while gens:
+            for g in list(gens):
+                got = list(itertools.islice(g, 10))
+                if not got:
+                    gens.remove(g)
+                yield from got
+
+    def _large_case(self, c, t, dim, mesher, seed, **kw):
+        """one recipe; returns None when the combination is not feasible."""
+        rs = np.random.default_rng([seed, 7])
+        sub_mode = kw.pop("sub_mode", ["mixed", "three", "odd"][seed % 3])
+        case = {"kind": "large", "tag": f"large_{dim}_{mesher}", "hint": c, "t": t, "dim": dim, "mesher": mesher,
+                "seed": int(seed), "sub_mode": sub_mode, "style": kw.pop("style", "distort"),
+                "scales": [[0.5, 0.25], [0.125, 0.375], [1.0, 1.0], [2.0, 0.75]][seed % 4],
+                "origin": [[0.5, -1.25], [-3.0, 2.5], [0.0, 0.0], [7.0, 0.125]][(seed // 4) % 4],
+                "route": ["mesh", "direct", "mesh"][seed % 3], "over": ["sampler", "sampling"][(seed // 3) % 2],
+                "grid_container": ["irregular", "ndarray", "irregular"][(seed // 6) % 3]}
+        n_sub, n = kw.pop("n_sub", None), kw.pop("n_unmasked", None)
+        if n_sub:
+            subs = _subs_for_total(np.random.default_rng([int(seed), 0xC06]), n_sub, sub_mode)
+            n = len(subs)
+            case["n_sub"] = int(n_sub)
+        est_sub = n_sub or n * {"mixed": 8, "three": 9, "odd": 7, "ones_sprinkle": 3}.get(sub_mode, 16)
+        if est_sub > self.LARGE_MAX_SUB or n < 1:
+            return None
+        case["n_unmasked"] = int(n)
+        frame = kw.pop("frame", None) or _frame_for(rs, n)
+        if frame[0] * frame[1] < n:
+            return None
+        case["frame"] = [int(frame[0]), int(frame[1])]
+        mesh = kw.pop("mesh", None)
+        if mesher == "rect":
+            mesh = mesh or [(3, 5), (5, 4), (4, 3), (3, 7)][seed % 4]
+            P = mesh[0] * mesh[1]
+            case["mesh"] = [int(mesh[0]), int(mesh[1])]
+        elif mesher == "delaunay":
+            mesh = mesh or [9, 12, 17, 7][seed % 4]
+            P = mesh
+            case["mesh"] = int(mesh)
+        if n * P > self.LARGE_MAX_ENTRIES:
+            return None
+        assert not kw, kw
+        return case
+
+    def _large_for_hint(self, c, seed):
+        sizes = [t for t in (c + c // 3 + 1, c, c + 1, c - 1, 2 * c + 1) if t >= 3]
+        k = [seed]
+
+        def nxt():
+            k[0] += 1
+            return k[0]
+
+        for t in sizes:
+            out = []
+            # (a) total sub-pixels == t exactly, per-pixel sub-size maps with odd sizes (blocks misaligned)
+            out.append(self._large_case(c, t, "subpixels", "rect", nxt(), n_sub=t))
+            out.append(self._large_case(c, t, "subpixels", "delaunay", nxt(), n_sub=t))
+            out.append(self._large_case(c, t, "subpixels", "rect", nxt(), n_sub=t, sub_mode="three", style="clump"))
+            # (b) unmasked pixels == t
+            out.append(self._large_case(c, t, "unmasked", "rect", nxt(), n_unmasked=t, sub_mode="ones_sprinkle"))
+            out.append(self._large_case(c, t, "unmasked", "delaunay", nxt(), n_unmasked=t, sub_mode="mixed"))
+            # (c) mesh pixels / Delaunay vertices == t (few data pixels, spread over the whole mesh)
+            nd = 40 + t % 13
+            shp = _factor_shape(t)
+            if shp:
+                shp = shp if nxt() % 2 else (shp[1], shp[0])
+                out.append(self._large_case(c, t, "meshpixels", "rect", nxt(), n_unmasked=nd, mesh=shp, style="corners"))
+            out.append(self._large_case(c, t, "vertices", "delaunay", nxt(), n_unmasked=nd, mesh=t, style="corners"))
+            out.append(self._large_case(c, t, "meshrows", "rect", nxt(), n_unmasked=nd, mesh=(t, 3), style="corners"))
+            out.append(self._large_case(c, t, "meshcols", "rect", nxt(), n_unmasked=nd, mesh=(4, t), style="corners"))
+            # (d) frame pixels H*W == t (non-square, both orientations), rows == t, columns == t
+            fs = _factor_shape(t, lo=2)
+            if fs:
+                nf = max(1, min(t * 3 // 5, 400))
+                out.append(self._large_case(c, t, "frame", "rect", nxt(), n_unmasked=nf, frame=fs))
+                out.append(self._large_case(c, t, "frame", "delaunay", nxt(), n_unmasked=nf, frame=(fs[1], fs[0])))
+                if t <= 40000:
+                    out.append(self._large_case(c, t, "frame_full", "rect", nxt(), n_unmasked=t, frame=(fs[1], fs[0]),
+                                                sub_mode="ones_sprinkle"))
+            out.append(self._large_case(c, t, "rows", "delaunay", nxt(), n_unmasked=min(2 * t, 300), frame=(t, 2)))
+            out.append(self._large_case(c, t, "cols", "rect", nxt(), n_unmasked=min(3 * t, 300), frame=(3, t)))
+            # (e) dense matrix entries n * P == t
+            for P_, shp_ in ((15, (3, 5)), (20, (5, 4)), (12, (4, 3)), (21, (3, 7)), (16, (4, 4)), (9, (3, 3))):
+                if t % P_ == 0 and t // P_ >= 1:
+                    out.append(self._large_case(c, t, "entries", "rect", nxt(), n_unmasked=t // P_, mesh=shp_))
+                    break
+            # (f) raw tables through the util functions: t sub-pixel rows, and t source pixels
+            out.append({"kind": "large", "tag": "large_subpixels_tables", "hint": c, "t": t, "dim": "subpixels",
+                        "mesher": "tables", "seed": nxt(), "n_sub": t, "sub_mode": "mixed", "n_unmasked": None,
+                        "pixels": 7 + t % 5, "kmax": 3, "signed": True, "allow_zero": bool(t % 2)})
+            if t * 30 <= self.LARGE_MAX_ENTRIES:
+                out.append({"kind": "large", "tag": "large_pixels_tables", "hint": c, "t": t, "dim": "pixels",
+                            "mesher": "tables", "seed": nxt(), "n_sub": 150 + t % 7, "sub_mode": "odd",
+                            "n_unmasked": None, "pixels": t, "kmax": 3, "signed": False, "allow_zero": False})
+            for cs in out:
+                if cs is not None:
+                    yield cs
+
+    # a fixed set of mid-size cases that is part of EVERY run (no hint needed): thresholds written without a
+    # literal, or below the smallest recorded constant, are not visible to size_hints
+    def _mid_cases(self, rng, quick):
+        seed = rng.randrange(1 << 20)
+        plan = [("subpixels", "rect", dict(n_sub=20011)), ("subpixels", "delaunay", dict(n_sub=9473)),
+                ("unmasked", "rect", dict(n_unmasked=4099, sub_mode="ones_sprinkle")),
+                ("vertices", "delaunay", dict(n_unmasked=45, mesh=2311, style="corners")),
+                ("meshpixels", "rect", dict(n_unmasked=45, mesh=(67, 41), style="corners")),
+                ("subpixels", "delaunay", dict(n_sub=601, mesh=41)),
+                ("subpixels", "rect", dict(n_sub=353, mesh=(9, 14))),
+                ("frame", "rect", dict(n_unmasked=120, frame=(37, 131)))]
+        if not quick:
+            plan += [("subpixels", "rect", dict(n_sub=70001)), ("unmasked", "delaunay", dict(n_unmasked=9001)),
+                     ("vertices", "delaunay", dict(n_unmasked=60, mesh=40009, style="corners")),
+                     ("meshpixels", "rect", dict(n_unmasked=60, mesh=(211, 163), style="corners")),
+                     ("frame", "delaunay", dict(n_unmasked=300, frame=(517, 259)))]
+        for j, (dim, mesher, kw) in enumerate(plan):
+            t = kw.get("n_sub") or kw.get("mesh") or kw.get("n_unmasked")
+            if dim == "frame":
+                t = kw["frame"]
+            t = t if isinstance(t, int) else t[0] * t[1]
+            cs = self._large_case(0, t, dim, mesher, seed + j, **kw)
+            if cs is not None:
+                cs["tag"] = f"mid_{dim}_{mesher}"
+                yield cs
+        t = 5003
+        yield {"kind": "large", "tag": "mid_subpixels_tables", "hint": 0, "t": t, "dim": "subpixels",
+               "mesher": "tables", "seed": seed + 99, "n_sub": t, "sub_mode": "mixed", "n_unmasked": None,
+               "pixels": 11, "kmax": 3, "signed": True, "allow_zero": True}
+
+    def _shrink_large(self, case):
+        """smaller sizes in the dimension the case was built for (a size-gated failure survives down to its gate)"""
+        if case["mesher"] == "tables":
+            key = "n_sub" if case["dim"] == "subpixels" else "pixels"
+            v = case[key]
+            for v2 in (v // 2, 3 * v // 4, v - v // 8, v - v // 64, v - 1):
+                if 3 <= v2 < v:
+                    yield {**case, key: v2, "t": v2}
+            return
+        dim = case["dim"]
+
+        def smaller(v):
+            return [v2 for v2 in (v // 2, 3 * v // 4, v - v // 8, v - v // 64, v - 1) if 3 <= v2 < v]
+
+        base = {"sub_mode": case["sub_mode"], "style": case.get("style", "distort"), "mesh": case["mesh"]}
+        cands = []
+        if dim == "subpixels":
+            cands = [dict(base, n_sub=v) for v in smaller(case["n_sub"])]
+        elif dim in ("unmasked", "entries"):
+            cands = [dict(base, n_unmasked=v) for v in smaller(case["n_unmasked"])]
+        elif dim == "vertices":
+            cands = [dict(base, n_unmasked=case["n_unmasked"], mesh=v) for v in smaller(case["mesh"])]
+        elif dim in ("meshpixels", "meshrows", "meshcols"):
+            h, w = case["mesh"]
+            cands = [dict(base, n_unmasked=case["n_unmasked"], mesh=((v, w) if h >= w else (h, v)))
+                     for v in smaller(max(h, w))]
+        elif dim in ("frame", "frame_full", "rows", "cols"):
+            H, W = case["frame"]
+            for v in smaller(max(H, W)):
+                fr = (v, W) if H >= W else (H, v)
+                cands.append(dict(base, n_unmasked=min(case["n_unmasked"], fr[0] * fr[1]), frame=fr))
+        for kw in cands:
+            if "n_sub" not in kw and case.get("n_sub"):
+                pass
+            ms_, fr_ = kw.get("mesh"), kw.get("frame") or case["frame"]
+            t2 = {"subpixels": kw.get("n_sub"), "vertices": ms_, "meshrows": ms_[0] if dim == "meshrows" else None,
+                  "meshcols": ms_[1] if dim == "meshcols" else None,
+                  "meshpixels": ms_[0] * ms_[1] if dim == "meshpixels" else None,
+                  "frame": fr_[0] * fr_[1], "frame_full": fr_[0] * fr_[1], "rows": fr_[0], "cols": fr_[1],
+                  }.get(dim) or kw.get("n_unmasked")
+            cs = self._large_case(case["hint"], t2, dim, case["mesher"], case["seed"], **kw)
+            if cs is not None:
+                cs["tag"] = case["tag"]
+                yield cs
+
+    def _run_large(self, aa, case):
+        X = _expand_large(case)
+        from autoarray.inversion.pixelization.mappers import mapper_util
+
+        if case["mesher"] == "tables":
+            subs = X["subs"]
+            slim_for = np.repeat(np.arange(len(subs)), subs * subs)
+            mm = mapper_util.mapping_matrix_from(
+                pix_indexes_for_sub_slim_index=X["idx"].copy(), pix_size_for_sub_slim_index=X["sizes"].copy(),
+                pix_weights_for_sub_slim_index=X["wts"].copy(), pixels=X["pixels"], total_mask_pixels=len(subs),
+                slim_index_for_sub_slim_index=slim_for, sub_fraction=1.0 / subs.astype(float) ** 2)
+            d2p, dw, pl = mapper_util.data_slim_to_pixelization_unique_from(
+                data_pixels=len(subs), pix_indexes_for_sub_slim_index=X["idx"].copy(),
+                pix_sizes_for_sub_slim_index=X["sizes"].copy(), pix_weights_for_sub_slim_index=X["wts"].copy(),
+                pix_pixels=X["pixels"], sub_size=subs.copy())
+            return {"large": True, "summary": {"sub_pixels": int(len(slim_for)), "data_pixels": int(len(subs))},
+                    "mapping_matrix": _enc(np.asarray(mm, dtype=float)),
+                    "unique": {"data_to_pix_unique": _enc(np.asarray(d2p).astype(np.int64)),
+                               "data_weights": _enc(np.asarray(dw, dtype=float)),
+                               "pix_lengths": _enc(np.asarray(pl).astype(np.int64))}}
+        m, subs, g = X["mask"], X["subs"], X["grid"]
+        mask = aa.Mask2D(mask=m.copy(), pixel_scales=tuple(case["scales"]), origin=tuple(case["origin"]))
+        uniform = len(set(subs.tolist())) == 1
+        sub = int(subs[0]) if (uniform and case["seed"] % 2) else aa.Array2D(values=subs.copy(), mask=mask)
+        if case.get("over") == "sampling":
+            over = aa.OverSamplingUniform(sub_size=sub).over_sampler_from(mask=mask)
+        else:
+            over = aa.OverSamplerUniform(mask=mask, sub_size=sub)
+        raw = g.copy()
+        grid = raw if case.get("grid_container") == "ndarray" else aa.Grid2DIrregular(values=raw)
+        direct = case.get("route") == "direct"
+        if case["mesher"] == "rect":
+            shp = tuple(case["mesh"])
+            if direct:
+                mesh_obj = aa.Mesh2DRectangular.overlay_grid(shape_native=shp, grid=grid)
+                mg = aa.MapperGrids(mask=mask, source_plane_data_grid=grid, source_plane_mesh_grid=mesh_obj)
+                mapper = aa.MapperRectangular(mapper_grids=mg, over_sampler=over, border_relocator=None,
+                                              regularization=None)
+            else:
+                mg = aa.mesh.Rectangular(shape=shp).mapper_grids_from(
+                    mask=mask, border_relocator=None, source_plane_data_grid=grid)
+                mapper = aa.Mapper(mapper_grids=mg, over_sampler=over, regularization=None)
+        else:
+            pts_in = X["points"].copy()
+            if direct:
+                mg = aa.MapperGrids(mask=mask, source_plane_data_grid=grid,
+                                    source_plane_mesh_grid=aa.Mesh2DDelaunay(values=pts_in))
+                mapper = aa.MapperDelaunay(mapper_grids=mg, over_sampler=over, border_relocator=None,
+                                           regularization=None)
+            else:
+                mg = aa.mesh.Delaunay().mapper_grids_from(
+                    mask=mask, border_relocator=None, source_plane_data_grid=grid,
+                    source_plane_mesh_grid=aa.Grid2DIrregular(values=pts_in))
+                mapper = aa.Mapper(mapper_grids=mg, over_sampler=over, regularization=None)
+        # the observables in an order that depends on the case (the dense and the sparse encoding first in turn)
+        order = [["um", "mm", "psw"], ["mm", "psw", "um"], ["psw", "um", "mm"]][case["seed"] % 3]
+        got = {}
+        for what in order:
+            got[what] = {"um": lambda: mapper.unique_mappings, "mm": lambda: mapper.mapping_matrix,
+                         "psw": lambda: mapper.pix_sub_weights}[what]()
+        psw, um, mm = got["psw"], got["um"], np.asarray(got["mm"])
+        nb = mapper.neighbors
+        mesh = mapper.source_plane_mesh_grid
+        obs = {"large": True, "class": type(mapper).__name__, "pixels": int(mapper.pixels),
+               "summary": {"frame": list(m.shape), "unmasked": int(len(subs)), "sub_pixels": int((subs ** 2).sum()),
+                           "mapping_matrix_shape": list(mm.shape)},
+               "slim_for_sub_slim": _enc(np.asarray(mapper.slim_index_for_sub_slim_index).astype(np.int64)),
+               "sub_fraction": _enc(np.asarray(over.sub_fraction, dtype=float)),
+               "mappings": _enc(np.asarray(psw.mappings).astype(np.int64)),
+               "sizes": _enc(np.asarray(psw.sizes).astype(np.int64)),
+               "weights": _enc(np.asarray(psw.weights, dtype=float)),
+               "mapping_matrix": _enc(mm.astype(float)),
+               "unique": {"data_to_pix_unique": _enc(np.asarray(um.data_to_pix_unique).astype(np.int64)),
+                          "data_weights": _enc(np.asarray(um.data_weights, dtype=float)),
+                          "pix_lengths": _enc(np.asarray(um.pix_lengths).astype(np.int64))},
+               "neighbors": _enc(np.asarray(nb).astype(np.int64)),
+               "neighbors_sizes": _enc(np.asarray(nb.sizes).astype(np.int64)),
+               "mesh.neighbors_same": bool(np.array_equal(np.asarray(mesh.neighbors), np.asarray(nb))),
+               "inputs_unchanged": bool(np.array_equal(raw, g) and np.array_equal(np.asarray(mask), m))}
+        if case["mesher"] == "rect":
+            obs["geom"] = [float(mesh.pixel_scales[0]), float(mesh.pixel_scales[1]), float(mesh.origin[0]),
+                           float(mesh.origin[1])]
+            obs["shape_native"] = [int(v) for v in mesh.shape_native]
+        else:
+            d = mapper.delaunay
+            indptr, indices = d.vertex_neighbor_vertices
+            obs["_qhull"] = {"simplices": _enc(np.asarray(d.simplices).astype(np.int64)),
+                             "find_simplex": _enc(np.asarray(d.find_simplex(g)).astype(np.int64)),
+                             "indptr": _enc(np.asarray(indptr).astype(np.int64)),
+                             "indices": _enc(np.asarray(indices).astype(np.int64)),
+                             "points_same": bool(np.array_equal(np.asarray(d.points), X["points"]))}
+        return obs
+
+    # ---- the property, vectorised (numpy on the implementation's output; exact re-check of float near-misses)
+    def _oracle_large(self, case, obs):
+        X = _expand_large(case)
+        where = f"[{case['dim']}={case['t']} (constant {case['hint']}), {case['mesher']}] "
+        ok, why = self._oracle_large_inner(case, obs, X)
+        return ok, ("" if ok else where + why)
+
+    def _oracle_large_inner(self, case, obs, X):
+        subs = X["subs"]
+        n = len(subs)
+        rep = subs * subs
+        nsub = int(rep.sum())
+        slim = np.repeat(np.arange(n), rep)
+        if case["mesher"] == "tables":
+            return self._vec_matrix_unique(subs, slim, X["idx"], X["sizes"], X["wts"], X["pixels"],
+                                           _dec(obs["mapping_matrix"]), obs["unique"], rows_sum=False)
+        g = X["grid"]
+        if obs.get("inputs_unchanged") is False:
+            return False, "building / reading the mapper changed the caller's grid or mask"
+        got_slim = _dec(obs["slim_for_sub_slim"])
+        if got_slim.shape != slim.shape or not np.array_equal(got_slim, slim):
+            return False, "slim_index_for_sub_slim_index is not pixel i repeated sub_size_i^2 times"
+        fr_ = _dec(obs["sub_fraction"])
+        if fr_.shape != (n,) or np.abs(fr_ - 1.0 / rep).max() > 1e-9:
+            return False, "sub_fraction != 1/sub_size^2"
+        maps, sizes, wts = _dec(obs["mappings"]), _dec(obs["sizes"]), _dec(obs["weights"])
+        if not (len(maps) == len(sizes) == len(wts) == nsub == len(g)) or maps.ndim != 2 or maps.shape != wts.shape:
+            return False, "pix_sub_weights tables do not have one row per sub-pixel"
+        nb, nbs = _dec(obs["neighbors"]), _dec(obs["neighbors_sizes"])
+        if case["mesher"] == "rect":
+            want_cls = "MapperRectangular"
+            h, w = X["shape"]
+            P = h * w
+            if obs["shape_native"] != [h, w]:
+                return False, f"mesh shape {obs['shape_native']} != {[h, w]}"
+            if maps.shape != (nsub, 1) or np.any(sizes != 1) or np.any(wts != 1):
+                return False, "rectangular mapping must be one index with weight 1 per sub-pixel"
+            y_hi, y_lo = g[:, 0].max() + 1e-8, g[:, 0].min() - 1e-8
+            x_hi, x_lo = g[:, 1].max() + 1e-8, g[:, 1].min() - 1e-8
+            sy, sx = (y_hi - y_lo) / h, (x_hi - x_lo) / w
+            exp_geom = [sy, sx, (y_hi + y_lo) / 2, (x_hi + x_lo) / 2]
+            for nm, a, b in zip(("pixel scale y", "pixel scale x", "origin y", "origin x"), obs["geom"], exp_geom):
+                if abs(a - b) > 1e-9 * max(1.0, abs(b)):
+                    return False, f"overlaid mesh {nm} = {a!r}, the grid's extent + 1e-8 buffer gives {b!r}"
+            c = maps[:, 0]
+            if c.min() < 0 or c.max() >= P:
+                k = _first((c < 0) | (c >= P))
+                return False, f"sub-pixel {k}: cell index {int(c[k])} outside 0..{P - 1}"
+            cy, cx = np.divmod(c, w)
+            fl = 8 * np.finfo(float).eps * (np.abs(g).max() + 1.0)
+            ty, tx = 1e-9 * sy + fl, 1e-9 * sx + fl
+            bad = ~((y_hi - (cy + 1) * sy - ty <= g[:, 0]) & (g[:, 0] <= y_hi - cy * sy + ty)
+                    & (x_lo + cx * sx - tx <= g[:, 1]) & (g[:, 1] <= x_lo + (cx + 1) * sx + tx))
+            if bad.any():
+                k = _first(bad)
+                return False, (f"sub-pixel {k} at ({float(g[k, 0])!r},{float(g[k, 1])!r}) is not inside cell {int(c[k])} = (row "
+                               f"{int(cy[k])}, col {int(cx[k])}) of the {h}x{w} mesh overlaid on the grid "
+                               f"({int(bad.sum())} such sub-pixels)")
+            kk = np.arange(P)
+            yy, xx = np.divmod(kk, w)
+            exp_codes = np.sort(np.concatenate([kk[yy > 0] * P + kk[yy > 0] - w, kk[yy < h - 1] * P + kk[yy < h - 1] + w,
+                                                kk[xx > 0] * P + kk[xx > 0] - 1, kk[xx < w - 1] * P + kk[xx < w - 1] + 1]))
+            okn, why = self._vec_neighbors(nb, nbs, P, exp_codes, f"the 4-connectivity of a {h}x{w} mesh")
+            if not okn:
+                return False, why
+        else:
+            want_cls = "MapperDelaunay"
+            pts = X["points"]
+            P = len(pts)
+            qh = obs["_qhull"]
+            if not qh["points_same"]:
+                return False, "the triangulation was not built on the vertex set that was passed in"
+            simp = _dec(qh["simplices"])
+            fs = _dec(qh["find_simplex"])
+            span = float(np.ptp(pts, axis=0).max())
+            a, b, c_ = pts[simp[:, 0]], pts[simp[:, 1]], pts[simp[:, 2]]
+            o = _orient_np(a, b, c_)
+            if np.any(np.abs(o) <= 1e-13 * span * span):
+                return False, f"Qhull contract: degenerate simplex {simp[_first(np.abs(o) <= 1e-13 * span * span)].tolist()}"
+            hull = _hull_np(pts)
+            hp = pts[hull]
+            hull_area2 = float(np.sum(_orient_np(hp[0][None, :], hp[1:-1], hp[2:])))
+            if abs(float(np.abs(o).sum()) - hull_area2) > 1e-9 * hull_area2:
+                return False, "Qhull contract: simplices do not tile the convex hull"
+            # local Delaunay condition on every interior edge (+ every edge in at most two simplices)
+            ccw = np.where((o > 0)[:, None], simp, simp[:, [0, 2, 1]])
+            e_a = np.concatenate([ccw[:, 0], ccw[:, 1], ccw[:, 2]])
+            e_b = np.concatenate([ccw[:, 1], ccw[:, 2], ccw[:, 0]])
+            e_o = np.concatenate([ccw[:, 2], ccw[:, 0], ccw[:, 1]])
+            e_t = np.tile(np.arange(len(simp)), 3)
+            key = np.minimum(e_a, e_b) * P + np.maximum(e_a, e_b)
+            srt = np.argsort(key, kind="stable")
+            ks = key[srt]
+            same = ks[1:] == ks[:-1]
+            if np.any(same[1:] & same[:-1]):
+                return False, "Qhull contract: an edge belongs to three simplices"
+            i1, i2 = srt[:-1][same], srt[1:][same]
+            A_, B_, C_ = pts[ccw[e_t[i1], 0]], pts[ccw[e_t[i1], 1]], pts[ccw[e_t[i1], 2]]
+            D_ = pts[e_o[i2]]
+            ax, ay = A_[:, 0] - D_[:, 0], A_[:, 1] - D_[:, 1]
+            bx, by = B_[:, 0] - D_[:, 0], B_[:, 1] - D_[:, 1]
+            cx_, cy_ = C_[:, 0] - D_[:, 0], C_[:, 1] - D_[:, 1]
+            inc = (ax * (by * (cx_ ** 2 + cy_ ** 2) - (bx ** 2 + by ** 2) * cy_)
+                   - ay * (bx * (cx_ ** 2 + cy_ ** 2) - (bx ** 2 + by ** 2) * cx_)
+                   + (ax ** 2 + ay ** 2) * (bx * cy_ - by * cx_))
+            if np.any(inc > 1e-9 * span ** 4):
+                return False, "Qhull contract: a simplex is not Delaunay (opposite vertex inside the circumcircle)"
+            adj_codes = np.unique(np.concatenate([e_a * P + e_b, e_b * P + e_a]))
+            indptr, indices = _dec(qh["indptr"]), _dec(qh["indices"])
+            csr_codes = np.sort(np.repeat(np.arange(P), np.diff(indptr)) * P + indices)
+            if csr_codes.shape != adj_codes.shape or not np.array_equal(csr_codes, adj_codes):
+                return False, "Qhull contract: vertex_neighbor_vertices != simplex edges"
+            okn, why = self._vec_neighbors(nb, nbs, P, adj_codes, "the edges of the Delaunay triangulation")
+            if not okn:
+                return False, why
+            # per sub-pixel interpolation
+            if maps.shape != (nsub, 3):
+                return False, "Delaunay rows must have 3 slots"
+            if np.any((sizes != 1) & (sizes != 3)):
+                return False, f"sub-pixel {_first((sizes != 1) & (sizes != 3))}: size not in (1, 3)"
+            k3 = np.flatnonzero(sizes == 3)
+            r3 = maps[k3]
+            if r3.size and (r3.min() < 0 or r3.max() >= P):
+                return False, "a located sub-pixel is mapped to a vertex index out of range"
+            s3 = np.sort(r3, axis=1)
+            simp_keys = np.sort(simp, axis=1)
+            simp_keys = (simp_keys[:, 0] * P + simp_keys[:, 1]) * P + simp_keys[:, 2]
+            bad = ~np.isin((s3[:, 0] * P + s3[:, 1]) * P + s3[:, 2], simp_keys)
+            if bad.any():
+                k = int(k3[_first(bad)])
+                return False, f"sub-pixel {k}: vertices {maps[k].tolist()} are not a triangle of the triangulation"
+            p3 = g[k3]
+            v0, v1, v2 = pts[r3[:, 0]], pts[r3[:, 1]], pts[r3[:, 2]]
+            dd = _orient_np(v0, v1, v2)
+            lam = np.stack([_orient_np(p3, v1, v2) / dd, _orient_np(v0, p3, v2) / dd, _orient_np(v0, v1, p3) / dd], axis=1)
+            sus = np.flatnonzero((lam.min(axis=1) < -1e-9) | (np.abs(wts[k3] - lam).max(axis=1) > 5e-10))
+            for jj in sus[:200]:  # float near-misses / genuine failures: decide exactly
+                k = int(k3[jj])
+                ex = bary(*[(F(float(pts[v, 0])), F(float(pts[v, 1]))) for v in maps[k]],
+                          (F(float(g[k, 0])), F(float(g[k, 1]))))
+                if min(ex) < -SLACK:
+                    return False, (f"sub-pixel {k} at ({float(g[k, 0])!r},{float(g[k, 1])!r}) is not in the triangle "
+                                   f"{maps[k].tolist()} it is mapped to (barycentric {[float(v) for v in ex]})")
+                if any(abs(F(float(a_)) - b_) > TOL for a_, b_ in zip(wts[k], ex)):
+                    return False, (f"sub-pixel {k}: weights {wts[k].tolist()} are not the barycentric coordinates "
+                                   f"{[float(v) for v in ex]} w.r.t. vertices {maps[k].tolist()} (in order); "
+                                   f"{len(sus)} suspicious sub-pixels")
+            if np.any(fs[k3] == -1):
+                return False, f"sub-pixel {int(k3[_first(fs[k3] == -1)])}: find_simplex = -1 but three vertices mapped"
+            k1 = np.flatnonzero(sizes == 1)
+            if k1.size:
+                r1, w1, p1 = maps[k1], wts[k1], g[k1]
+                bad = (r1[:, 1] != -1) | (r1[:, 2] != -1) | (w1[:, 0] != 1) | (w1[:, 1] != 0) | (w1[:, 2] != 0) \
+                    | (r1[:, 0] < 0) | (r1[:, 0] >= P)
+                if bad.any():
+                    k = int(k1[_first(bad)])
+                    return False, f"sub-pixel {k}: single mapping must be [v,-1,-1] with weights [1,0,0]: {maps[k].tolist()} {wts[k].tolist()}"
+                ea, eb = hp, np.roll(hp, -1, axis=0)
+                e2 = ((eb - ea) ** 2).sum(axis=1)
+                inside = np.ones(len(p1), dtype=bool)
+                for j in range(len(hull)):
+                    inside &= _orient_np(ea[j][None, :], eb[j][None, :], p1) > 1e-9 * e2[j]
+                if inside.any():
+                    k = int(k1[_first(inside)])
+                    return False, f"sub-pixel {k} at ({float(g[k, 0])!r},{float(g[k, 1])!r}) is strictly inside the hull but mapped to one vertex"
+                from scipy.spatial import cKDTree
+
+                dmin, _ = cKDTree(pts).query(p1)
+                dgot = np.sqrt(((pts[r1[:, 0]] - p1) ** 2).sum(axis=1))
+                bad = dgot > dmin * (1 + 1e-12) + 1e-300
+                if bad.any():
+                    k = int(k1[_first(bad)])
+                    return False, f"sub-pixel {k}: vertex {int(maps[k, 0])} is not the nearest vertex"
+        if obs["class"] != want_cls:
+            return False, f"factory built {obs['class']}"
+        if obs["pixels"] != P:
+            return False, f"mapper.pixels = {obs['pixels']} != {P}"
+        if not obs["mesh.neighbors_same"]:
+            return False, "mapper.neighbors differs from source_plane_mesh_grid.neighbors"
+        return self._vec_matrix_unique(subs, slim, maps, sizes, wts, P, _dec(obs["mapping_matrix"]), obs["unique"],
+                                       rows_sum=True)
+
+    @staticmethod
+    def _vec_neighbors(nb, nbs, P, exp_codes, what):
+        if nb.ndim != 2 or nb.shape[0] != P or nbs.shape != (P,):
+            return False, "neighbour table has wrong number of rows"
+        valid = np.arange(nb.shape[1])[None, :] < nbs[:, None]
+        if np.any(nb[~valid] != -1):
+            return False, "neighbour table: entries beyond the size are not -1"
+        used = nb[valid]
+        if used.size and (used.min() < 0 or used.max() >= P):
+            k = int(np.argwhere(valid & ((nb < 0) | (nb >= P)))[0][0])
+            return False, f"neighbors[{k}] = {nb[k].tolist()} (size {int(nbs[k])}): index out of range 0..{P - 1}"
+        rows = np.repeat(np.arange(P), nbs)
+        codes = np.sort(rows * P + used)
+        if codes.shape != exp_codes.shape or not np.array_equal(codes, exp_codes):
+            bad_rows = np.setxor1d(codes, exp_codes) // P
+            k = int(bad_rows[0]) if bad_rows.size else -1
+            return False, (f"neighbors[{k}] = {nb[k].tolist() if k >= 0 else '?'} (size "
+                           f"{int(nbs[k]) if k >= 0 else '?'}) is not {what} "
+                           f"(expected {sorted((exp_codes[exp_codes // P == k] % P).tolist()) if k >= 0 else '?'})")
+        return True, ""
+
+    @staticmethod
+    def _vec_matrix_unique(subs, slim, maps, sizes, wts, P, mm, uq, rows_sum):
+        n = len(subs)
+        if mm.shape != (n, P):
+            return False, f"mapping matrix shape {mm.shape} != ({n},{P})"
+        valid = np.arange(maps.shape[1])[None, :] < sizes[:, None]
+        used = maps[valid]
+        if used.size and (used.min() < 0 or used.max() >= P):
+            return False, "a source pixel index is out of range"
+        rows = np.broadcast_to(slim[:, None], maps.shape)[valid]
+        frac = 1.0 / (subs * subs).astype(float)
+        exp = np.zeros((n, P))
+        np.add.at(exp, (rows, used), frac[rows] * wts[valid])
+        mag = np.zeros((n, P))
+        np.add.at(mag, (rows, used), np.abs(frac[rows] * wts[valid]))
+        bad = np.abs(mm - exp) > 1e-12 * np.maximum(1.0, mag)
+        if bad.any():
+            i, p = np.argwhere(bad)[0]
+            return False, (f"mapping_matrix[{i},{p}] = {float(mm[i, p])!r} != sum over the sub-pixels of data pixel {i} "
+                           f"(sub_size {int(subs[i])}) of (1/sub_size^2) * weight = {float(exp[i, p])!r} "
+                           f"({int(bad.any(axis=1).sum())} rows differ)")
+        if rows_sum:
+            if mm.min() < 0:
+                i = int(np.argwhere(mm < 0)[0][0])
+                return False, f"mapping_matrix row {i} has a negative entry {float(mm[i].min())!r}"
+            rsum = mm.sum(axis=1)
+            if np.abs(rsum - 1).max() > 1e-9:
+                i = _first(np.abs(rsum - 1) > 1e-9)
+                return False, f"mapping_matrix row {i} sums to {float(rsum[i])!r}, not 1"
+        d2p, dw, pl = _dec(uq["data_to_pix_unique"]), _dec(uq["data_weights"]), _dec(uq["pix_lengths"])
+        if d2p.shape[0] != n or dw.shape != d2p.shape or pl.shape != (n,):
+            return False, "unique-mapping tables have wrong shapes"
+        if pl.min() < 0 or pl.max() > d2p.shape[1]:
+            return False, "pix_lengths out of range"
+        uvalid = np.arange(d2p.shape[1])[None, :] < pl[:, None]
+        ukeys = d2p[uvalid]
+        if ukeys.size and (ukeys.min() < 0 or ukeys.max() >= P):
+            return False, "unique mappings: source pixel index out of range"
+        urows = np.repeat(np.arange(n), pl)
+        ucodes = urows * P + ukeys
+        su = np.sort(ucodes)
+        if np.any(su[1:] == su[:-1]):
+            i = int(su[1:][su[1:] == su[:-1]][0] // P)
+            return False, f"unique row {i} repeats a source pixel: {d2p[i, :pl[i]].tolist()}"
+        dcodes = np.unique(rows * P + used)
+        if su.shape != dcodes.shape or not np.array_equal(su, dcodes):
+            i = int(np.setxor1d(su, dcodes)[0] // P)
+            return False, (f"unique row {i}: pixels {d2p[i, :pl[i]].tolist()} (length {int(pl[i])}) != distinct source "
+                           f"pixels {sorted((dcodes[dcodes // P == i] % P).tolist())}")
+        dense = np.zeros((n, P))
+        np.add.at(dense, (urows, ukeys), dw[uvalid])
+        bad = np.abs(dense - mm) > 1e-12 * np.maximum(1.0, mag)
+        if bad.any():
+            i, p = np.argwhere(bad)[0]
+            return False, (f"unique mappings of data pixel {i} encode {float(dense[i, p])!r} for source pixel {p}, the "
+                           f"mapping matrix has {float(mm[i, p])!r}")
+        return True, ""
+
     def theorems_for(self, case):
         common_t = ["C06.mappingMatrix_entry", "C06.mappingMatrix_rows_sum_one", "C06.slimForSubSlim_blocks",
                     "C06.unique_encodes_mapping_matrix", "C06.unique_rows_distinct"]
+        if case["kind"] == "hist":
+            return sorted({t_ for W in case["worlds"] for t_ in self.theorems_for(W)})
+        if case["kind"] == "large":
+            if case["mesher"] == "tables":
+                return ["C06.mappingMatrix_shape", "C06.mappingMatrix_entry", "C06.unique_encodes_mapping_matrix",
+                        "C06.unique_rows_distinct"]
+            return self.theorems_for({"kind": case["mesher"]})
         return {
             "nbr": ["C06.rectNeighbors_eq_spec", "C06.rect_neighbors_four_connectivity",
                     "C06.rect_neighbors_symmetric"],
